@@ -160,7 +160,7 @@ func load(spec famSpec) *family {
 			r := f18.NewRunner(s)
 			return runner{func(i int) { r.Run(&cs[i]) }, r.Finish}
 		}}
-	case "f06", "f07": // ciphering / integrity: same runner, separate traces (Trace_C06 / Trace_C07)
+	case "f06", "f07", "f08": // ciphering / integrity / guards and NULL algorithms: same runner, separate traces (Trace_C06 / Trace_C07 / Trace_C19sec)
 		cs := fsec.Load(spec.Cases)
 		var arena *fsec.Arena // the payloads of all goroutines lie in one array, those of neighbours without a gap
 		var once sync.Once
